@@ -111,8 +111,24 @@ let is_stable cands (ins : M.Fol.pred list) (prog : M.Asp.program) (t : M.Eval.f
       some emitted forward problem is refuted by M
         iff  M|voc(L) is a stable model of L + its input facts  and  (M read through the renaming)|voc(R)
              is not a stable model of R + its input facts
-   and symmetrically for the backward problems.  Stable models by brute force. *)
-let sem_c02_behaviour (e : Sexp.t) : Sexp.t =
+   and symmetrically for the backward problems.  Stable models by brute force.
+
+   PUBLIC VOCABULARY (audit A4, finding F17).  The behaviour of a program is read on its own
+   predicates and ALL public predicates of the user guide: an output predicate that does not occur
+   in a program is empty in every external stable model of it.  [strict_outputs = true] tests exactly
+   that and reports the recorded finding F17 (with one direction only, the side that lacks the
+   output predicate has no completed definition for it and nothing is refuted).  The regular op
+   ([strict_outputs = false]) excuses exactly that class: an output predicate that does not occur
+   in a program is left out of THAT program's vocabulary (outside the class the two ops coincide).
+
+   RENAMED CONSTANTS (audit A2, finding F8c).  If a symbolic constant s equals a 0-ary predicate of
+   the task, rename_conflicting_symbols prints it `s__s`.  The regular op reads `s__s` as the
+   constant s it stands for (un-renames the problems; skipped only when a constant `s__s` exists
+   besides s), so other violations inside the class are still reported, and leaves the
+   symbol_order chain - false for those constants, C12_chain_refuted_after_rename - out of account.
+   [strict_symbols = true] takes the printed names at face value, as the prover does (the chain makes
+   them distinct constants in byte order): that is the recorded finding F8c. *)
+let sem_c02_behaviour ~(strict_outputs : bool) ~(strict_symbols : bool) (e : Sexp.t) : Sexp.t =
   let open M.Fol in
   let open M.Problem in
   let ok n = L [ A "ok"; A (string_of_int n) ] in
@@ -135,14 +151,18 @@ let sem_c02_behaviour (e : Sexp.t) : Sexp.t =
           (otherwise rename_conflicting_symbols renames the symbol to s__s in the problems) *)
        let syms = M.Asp.program_fconsts left @ M.Asp.program_fconsts right
                   @ List.concat_map (fun (a : aformula_annot) -> M.Fol.symbols a.an_formula) (M.External.ug_formulas ug) in
-       let symbol_clash = List.exists (fun (q : pred) -> Conv.int_of_nat q.parity = 0 && List.mem q.psym syms)
-           (public @ privates @ M.Asp.program_preds left @ M.Asp.program_preds right) in
-       if t.et_proof_outline <> [] || M.External.ug_placeholders ug <> [] || clash || symbol_clash
+       let clash_syms = List.filter (fun s ->
+           List.exists (fun (q : pred) -> Conv.int_of_nat q.parity = 0 && q.psym = s)
+             (public @ privates @ M.Asp.program_preds left @ M.Asp.program_preds right))
+           (List.sort_uniq compare syms) in
+       let ambiguous = List.exists (fun s -> List.mem (s @ Ops_tasks_sem.suffix_s) syms) clash_syms in
+       if t.et_proof_outline <> [] || M.External.ug_placeholders ug <> [] || clash || ((not strict_symbols) && ambiguous)
           || M.EvalAspTasks.program_has_arith left || M.EvalAspTasks.program_has_arith right
           || not (M.Tightness.is_tight left) || not (M.Tightness.is_tight right)
           || pbs = [] (* the private definitions are read off the problems' stable premises *) then ok 0
        else begin
          let pbs = List.map problem pbs in
+         let pbs = if strict_symbols then pbs else List.map (Ops_tasks_sem.unrename_problem clash_syms) pbs in
          let all_formulas = List.concat_map Ops_tasks_sem.problem_formulas pbs in
          let term_consts (prog : M.Asp.program) =
            List.concat_map (fun (r : M.Asp.rule) ->
@@ -166,7 +186,11 @@ let sem_c02_behaviour (e : Sexp.t) : Sexp.t =
              let cands = M.Eval.w_general w in
              let in_voc (voc : pred list) (name, args) =
                List.exists (fun (q : pred) -> q.psym = name && Conv.int_of_nat q.parity = List.length args) voc in
-             let voc_l = uniq (M.Asp.program_preds left @ ins) and voc_r = uniq (M.Asp.program_preds right @ ins) in
+             let outs = M.External.ug_output_predicates ug in
+             let voc_of (prog : M.Asp.program) =
+               let ps = M.Asp.program_preds prog in
+               uniq (ps @ ins @ (if strict_outputs then outs else List.filter (fun q -> List.mem q ps) outs)) in
+             let voc_l = voc_of left and voc_r = voc_of right in
              (* M read through the renaming, on R's vocabulary: p(args) holds iff M has renamed(p)(args) *)
              let side_r (m : M.Eval.fpint) : M.Eval.fpint =
                List.concat_map (fun (q : pred) ->
@@ -212,7 +236,9 @@ let sem_c02_behaviour (e : Sexp.t) : Sexp.t =
   | _ -> bad "sem_c02_behaviour: %s" (to_string e)
 
 let () =
-  Ops.register "sem_c02_behaviour" sem_c02_behaviour;
+  Ops.register "sem_c02_behaviour" (sem_c02_behaviour ~strict_outputs:false ~strict_symbols:false);
+  Ops.register "sem_c02_behaviour_outputs" (sem_c02_behaviour ~strict_outputs:true ~strict_symbols:false);
+  Ops.register "sem_c02_behaviour_symbols" (sem_c02_behaviour ~strict_outputs:false ~strict_symbols:true);
   Ops.register "external_decompose_small" external_decompose_full;
   Ops.register "tau_star_completion_small" tau_star_completion_full;
   Ops.register "sem_fages" sem_fages;
